@@ -643,7 +643,11 @@ class Oracle:
         for a in typ.attrs:
             k = a.key()
             if a.use == 'prohibited':
-                if k in node.attrs and not typ.anyattr: tags.add('attr-prohibited')
+                if k in node.attrs:
+                    # a prohibited use removes the attribute use; the attribute is then only admitted if the wildcard lets its namespace in
+                    # (that combination has two readings and is not generated on purpose; a mutation can still produce it: flagged, not judged)
+                    if not typ.anyattr or not wildcard_allows(typ.anyattr[0], self.tns_of_type.get(id(typ), tns), k[0]): tags.add('attr-prohibited')
+                    else: self.flags.add('ambiguous:prohibited-under-wildcard')
                 continue
             if k in node.attrs:
                 seen.add(k)
@@ -699,9 +703,10 @@ class Oracle:
                     self.flags.add('ambiguous:xsi-in-lax-undeclared')      # lax assessment honours xsi:type: partial-declaration territory, not generated
     def _simple_content(self, node, d, tname, tags):
         text = node.text()
-        if text == '' and not node.children:
-            if d.fixed is not None or d.default is not None: return      # value constraint supplies the value
-        if text == '' and (d.default is not None or d.fixed is not None): return
+        if text == '' and (d.default is not None or d.fixed is not None):
+            # the value constraint supplies the value; cvc-elt 5.1.1: it must be valid for the ACTUAL type (xsi:type may have replaced the declared one)
+            if not simple_valid(tname, d.fixed if d.fixed is not None else d.default): tags.add('datatype')
+            return
         if text.strip(' \t\r\n') == '' and (d.default is not None or d.fixed is not None): self.flags.add('ambiguous:whitespace-only-with-value-constraint')
         if not simple_valid(tname, text):
             tags.add('datatype')
